@@ -368,7 +368,10 @@ func cmdCheck(args []string) int {
 		}
 	}
 	selftestFailed := false
-	if o.tier == "thorough" && !o.scratch {
+	if o.tier == "thorough" && !o.scratch && os.Getenv("GOVC_SKIP_CORPUS") == "1" {
+		// development aid: the corpus is run separately (tools/run_seeds.py, tools/run_mutations.py)
+		cov["must_fail_corpus"] = "skipped in this run (GOVC_SKIP_CORPUS=1); see /verif/seeded/SUMMARY.md and /verif/selftest/RESULTS.md"
+	} else if o.tier == "thorough" && !o.scratch {
 		corpus := runCorpus(o)
 		cov["must_fail_corpus"] = corpus
 		for _, c := range corpus {
